@@ -26,7 +26,14 @@ def run(cmd, cwd, timeout=900, env=env):
 # worktree: clean, then apply the patch
 run("git checkout -q -- . ", wt)
 p = run(f"git apply {patch}", wt)
-assert p.returncode == 0, "patch does not apply: " + p.stderr
+if p.returncode != 0:
+    # /repo has moved on (fix: commits) since the change was written: three-way apply, then re-export the patch
+    p = run(f"git apply --3way {patch}", wt)
+    assert p.returncode == 0, "patch does not apply: " + p.stderr
+    run("git reset -q", wt)
+    rebased = f"{src}/patch{n}.rebased.diff"
+    run(f"git diff > {rebased}", wt)
+    patch = rebased
 shutil.copy(demo, f"{wt}/_demo.py")
 with_change = run("/venv/bin/python _demo.py", wt).returncode
 tests = run("/venv/bin/python -m pytest -q -p no:cacheprovider --no-cov -n 6 -x 2>&1 | tail -2", wt)
